@@ -24,7 +24,12 @@ theorem cur_state_closure_manager :
 theorem cur_state_registry :
     Skeleton.current.stateRegistry = ["wrappedChild", "R", "map[string]R", "*sync.Mutex", "*RegistryHooks"] := by decide
 
+/-- …and there is no mutable package-level state (nothing a model would have to share between registries). -/
+theorem cur_state_no_globals : Skeleton.current.stateGlobals = [] := by decide
+
 end Panrpc.State
+
+#print axioms Panrpc.State.cur_state_no_globals
 
 #print axioms Panrpc.State.cur_state_broadcaster
 #print axioms Panrpc.State.cur_state_closure_manager
